@@ -471,6 +471,22 @@ def handleObj (st : DState) (parts : List String) : Option (DState × String) :=
                       " S=" ++ showVal (normV (if f == "cbor" then .cbor else .json) st.types a trLib st.it 100000 ti v))
       | _, _ => some (st, "bad-op")
     | _, _ => some (st, "bad-op")
+  | ["clonep", aid, tid, val] =>
+    -- the destination already holds a (shallow) copy of the source when Clone is called
+    match parseNat aid, parseNat tid with
+    | some ai, some ti =>
+      match st.atlases.lookup ai, parseValue st.types ti val with
+      | some a, some v =>
+        let mo := marshalV st.types a trLib 100000 ti v
+        match mo.fail with
+        | some _ => some (st, "M=-/err")
+        | none =>
+          if bindFails st.types a ti then some (st, "M=-/err") else
+          match unmV st.types a trLib st.it 100000 ti v mo.toks with
+          | .ok rv [] _ => some (st, "M=" ++ showVal rv ++ "/ok")
+          | _ => some (st, "M=-/err")
+      | _, _ => some (st, "bad-op")
+    | _, _ => some (st, "bad-op")
   | ["clone", aid, tid, val] =>
     match parseNat aid, parseNat tid with
     | some ai, some ti =>
@@ -542,7 +558,7 @@ partial def loop (hin : IO.FS.Stream) (hout : IO.FS.Stream) (st : DState) : IO U
   match l.splitOn " " with
   | id :: rest0 =>
     -- `clonev` (source passed by value instead of by pointer) is the same function of the value in the model
-    let rest := match rest0 with | "clonev" :: r => "clone" :: r | r => r
+    let rest := match rest0 with | "clonev" :: r => "clone" :: r | "autogenj" :: r => "autogen" :: r | r => r
     match handleObj st rest with
     | some (st', out) =>
       hout.putStrLn (id ++ " " ++ out)
